@@ -78,6 +78,11 @@ def _amounts(thorough: bool):
     return A
 
 
+class _Elapsed(dt_.timedelta):
+    def __repr__(self):
+        return f"Elapsed({dt_.timedelta.__repr__(self)})"
+
+
 def _total_us(kw):
     from fractions import Fraction as Fr
     t = ((Fr(kw.get("hours", 0)) * 3600 + Fr(kw.get("minutes", 0)) * 60 + Fr(kw.get("seconds", 0))) * US
@@ -164,6 +169,11 @@ def check_case(acc, pendulum, zname, inst, kw, variants=True, foreign=None):
         ops.append(("subtract_neg", lambda: x.subtract(**{k: -v for k, v in kw.items()}), target))
         ops.append(("minus_td", lambda: x - dt_.timedelta(**{k: -v for k, v in kw.items()}), target))
         ops.append(("td_plus", lambda: td + x, target))                         # reflected operand order
+        # a plain timedelta of a user SUBCLASS (what pandas.Timedelta is): still an elapsed amount
+        etd = _Elapsed(**kw)
+        ops.append(("plus_td_subclass", lambda: x + etd, target))
+        ops.append(("td_subclass_plus", lambda: etd + x, target))
+        ops.append(("minus_td_subclass", lambda: x - _Elapsed(**{k: -v for k, v in kw.items()}), target))
         ops.append(("duration_plus", lambda: pendulum.duration(**kw) + x, target))
     first = None
     for name, fn, tgt in ops:
